@@ -1009,7 +1009,9 @@ def corpus_history5(r, fails, tags):
         c.coincident = None
         if src is not None:
             for name, kw in [("op_set", dict(target=("H1", "mid"), source=src)), ("op_get", dict(target=("H1", "mid"))),
-                             ("op_get", dict(target=(f"H{c.nh + 1}", "leaf"))), ("op_py", {}), ("op_get", dict(target=(src, "leaf")))]:
+                             ("op_get", dict(target=(f"H{c.nh + 1}", "leaf"))), ("op_py", {}), ("op_get", dict(target=(src, "leaf"))),
+                             # the part stored by the assignment lives inside H1: moving it alone must be refused
+                             ("op_move", dict(target=(f"H{c.nh + 1}", 1)))]:
                 before = len(c.ops)
                 c.last_target = None
                 c.last_field = None
@@ -1019,6 +1021,27 @@ def corpus_history5(r, fails, tags):
                     break
                 if len(c.ops) > before and not c.check_mirror(c.ops[-1]):
                     break
+    return c
+
+
+def corpus_history6(r, fails, tags):
+    """a reference-free part put into its container by an assignment AFTER construction lives inside the container like one nested at
+    construction: moving it alone is refused"""
+    c = Case(r, fails, tags, force={"k1": "R", "k1b": None, "k2": "R", "k3": "N"})
+    steps = [("op_new", dict(ci=2, bi=0, given={"mid": None})), ("op_new", dict(ci=0, bi=1)),
+             ("op_set", dict(target=("H1", "leaf"), source="H2")), ("op_get", dict(target=("H1", "leaf"))),
+             ("op_move", dict(target=("H3", 1))), ("op_move", dict(target=("H3", 0))), ("op_get", dict(target=("H1", "leaf"))),
+             ("op_move", dict(target=("H2", 0)))]
+    for name, kw in steps:
+        before = len(c.ops)
+        c.last_target = None
+        c.last_field = None
+        try:
+            getattr(c, name)(**kw)
+        except KeyError:
+            break
+        if len(c.ops) > before and not c.check_mirror(c.ops[-1]):
+            break
     return c
 
 
@@ -1044,7 +1067,7 @@ def run_all(tier, seed, extra=None):
     n_hist = {"quick": 40, "thorough": 6000}[tier]
     cases, expects, ctxs = [], [], []
     for hi in range(n_hist):
-        c = corpus_history(r, fails, tags) if hi == 0 else corpus_history2(r, fails, tags) if hi == 1 else corpus_history3(r, fails, tags) if hi == 2 else corpus_history4(r, fails, tags) if hi == 3 else corpus_history5(r, fails, tags) if hi == 4 else run_history(r, fails, tags, r.choice([8, 14, 24]))
+        c = corpus_history(r, fails, tags) if hi == 0 else corpus_history2(r, fails, tags) if hi == 1 else corpus_history3(r, fails, tags) if hi == 2 else corpus_history4(r, fails, tags) if hi == 3 else corpus_history5(r, fails, tags) if hi == 4 else corpus_history6(r, fails, tags) if hi == 5 else run_history(r, fails, tags, r.choice([8, 14, 24]))
         if extra:
             extra(c, r)
         cases.append(c.ops)
